@@ -702,6 +702,9 @@ func (self *LockDB) FreeCollect() error {
 }
 
 func (self *LockDB) startCheckLoop() {
+	if vfNoBackground {
+		return
+	}
 	timeoutWaiter, expriedWaiter, removeLockManagerWaiter := make(chan struct{}, 16), make(chan struct{}, 16), make(chan struct{}, 1)
 	go self.updateCurrentTime(timeoutWaiter, expriedWaiter, removeLockManagerWaiter)
 	go self.checkTimeOut(timeoutWaiter)
